@@ -127,6 +127,27 @@ def seasoned_models():
                      'root': ('list', ('cls', 'K'))}
 
 
+def hook_sharing_models():
+    """a savorize that uses ONE node for two attributes ("billing defaults to the address": set_attribute(b,
+    get_attribute(a).yaml_node)), which only documented API is needed for; the two attributes have different types"""
+    S = lambda v: ('s', 'str', v)   # noqa
+    I = lambda v: ('s', 'int', v)   # noqa
+    M = lambda ps: ('m', 'map', ps)  # noqa
+    em = {'name': 'Em', 'kind': 'enum', 'members': ['red', 'blue'], 'mixin': 'str'}
+    tag = {'name': 'Tg', 'kind': 'strsub'}
+    inn = {'name': 'I2', 'params': [('p', 'int'), ('s_q', 'int', 0)], 'hooks': {'savorize': [('stamp', 's_q')]}}
+    for ta, tb, da in (('str', ('cls', 'Em'), [S('red'), S('green')]), ('str', ('cls', 'Tg'), [S('red')]), ('str', 'path', [S('a/b')]),
+                       ('path', 'path', [S('a/b')]), (('cls', 'Em'), 'str', [S('red')]), ('any', ('cls', 'Em'), [S('blue'), I('1')]),
+                       (('cls', 'In'), ('cls', 'In'), [M([(S('p'), I('1'))])]), (('cls', 'I2'), ('cls', 'I2'), [M([(S('p'), I('1'))])]),
+                       (('list', 'str'), ('list', ('cls', 'Em')), [('q', 'seq', [S('red'), S('blue')])]),
+                       (('dict', 'str', 'int'), ('dict', ('cls', 'Tg'), 'int'), [M([(S('red'), I('1'))])])):
+        k = {'name': 'K', 'params': [('a', ta), ('b', tb)],
+             'hooks': {'recognize': [('require_attr', 'a')], 'savorize': [('share_attr', 'a', 'b')]},
+             'docs': [M([(S('a'), d)]) for d in da] + [M([(S('a'), d), (S('b'), d)]) for d in da]}
+        yield 'hook-sharing', {'classes': BASE + [em, tag, inn, k], 'root': ('cls', 'K')}
+        yield 'hook-sharing', {'classes': BASE + [em, tag, inn, k], 'root': ('list', ('cls', 'K'))}
+
+
 def element_order_models():
     """a collection whose items are recognised one by one: an ambiguous item and an unrecognisable item in either
     order; the collection is a Union member / an attribute of a class that competes with another class"""
@@ -223,7 +244,7 @@ def all_load_models(tier):
     """the C02 catalogue: auto-recognised models"""
     out = []
     for gen in (root_models(), one_param_models(), two_param_models(full=(tier == 'thorough')),
-                nested_models(), seasoned_models(), shorthand_models(), element_order_models()):
+                nested_models(), seasoned_models(), shorthand_models(), element_order_models(), hook_sharing_models()):
         for fam, spec in gen:
             if spec is not None:
                 out.append((fam, spec))
